@@ -3,3 +3,11 @@
 
 def semaphore_quiescence(tier, seed):
     return {'coverage': {}, 'violations': []}
+
+
+def stream_download_e2e(tier, seed):
+    return {'coverage': {}, 'violations': []}
+
+
+def replay_manager(data):
+    raise NotImplementedError
